@@ -78,3 +78,25 @@ Proof. repeat split; vm_compute; reflexivity. Qed.
 Definition all_calls_ok : bool := forallb (fun e => forallb allowed (snd e)) fn_calls.
 Lemma all_calls_ok_holds : all_calls_ok = true.
 Proof. vm_compute. reflexivity. Qed.
+
+(* ---------- the public surface is the modelled one ---------- *)
+Definition last_component (f : string) : string :=
+  match String.index 0 "." f with
+  | Some k => String.substring (S k) (String.length f - S k) f
+  | None => f
+  end.
+Definition is_exported (f : string) : bool :=
+  match last_component f with
+  | String c _ => let n := Ascii.nat_of_ascii c in (65 <=? n)%nat && (n <=? 90)%nat
+  | EmptyString => false
+  end.
+Definition api_expected : list string :=
+  ["NewMnemonic"; "NewMnemonicByEntropy"; "CheckMnemonic"; "IsMnemonicValid"; "MnemonicToSeed"; "Language.String"].
+(* every exported function or method of the root package (guard-off build) is one of the six modelled entry points,
+   and all six exist; Language is Go's int *)
+Definition exported_api_ok : bool :=
+  forallb (fun e => implb (is_exported (fst e)) (str_in (fst e) api_expected)) fn_calls
+  && forallb fn_defined api_expected
+  && String.eqb lang_underlying "int".
+Lemma exported_api_ok_holds : exported_api_ok = true.
+Proof. vm_compute. reflexivity. Qed.
